@@ -81,7 +81,7 @@ func classifyPath(v ssa.Value, env pathEnv) (class string, suffix string) {
 	isDest := func(x ssa.Value) bool {
 		x = resolve(x, env)
 		call, ok := x.(*ssa.Call)
-		return ok && core.Callee(call) != nil && core.Callee(call).Name() == "filePathToFile" && core.TypeIs(recvType(core.Callee(call)), tFileStorage)
+		return ok && core.Callee(call) != nil && cn(core.Callee(call)) == "filePathToFile" && core.TypeIs(recvType(core.Callee(call)), tFileStorage)
 	}
 	if isDest(v) {
 		return "dest", ""
@@ -285,7 +285,7 @@ func c18r2(c *core.Ctx) {
 					return
 				}
 				args := core.CallOf(i).Args
-				if h.Name() == "filePathToFile" && core.TypeIs(recvType(h), tFileStorage) && len(args) == 2 && isKey(args[1]) {
+				if cn(h) == "filePathToFile" && core.TypeIs(recvType(h), tFileStorage) && len(args) == 2 && isKey(args[1]) {
 					uses = true
 				}
 				if core.InModule(h) && h.Blocks != nil && d > 0 {
@@ -305,7 +305,7 @@ func c18r2(c *core.Ctx) {
 		ok := false
 		core.Instrs(f, func(i ssa.Instruction) {
 			if core.IsCall(i, "io/ioutil.ReadDir") || core.IsCall(i, "os.ReadDir") {
-				if call, isC := core.Args(i)[0].(*ssa.Call); isC && core.Callee(call) != nil && core.Callee(call).Name() == "dir" {
+				if call, isC := core.Args(i)[0].(*ssa.Call); isC && core.Callee(call) != nil && cn(core.Callee(call)) == "dir" {
 					ok = true
 				}
 			}
@@ -388,7 +388,7 @@ func c18r3(c *core.Ctx) {
 		// every listed key goes through the same loader
 		same := false
 		core.Instrs(ent, func(i ssa.Instruction) {
-			if g := core.Callee(i); g != nil && g.Name() == "entityForKey" {
+			if g := core.Callee(i); g != nil && cn(g) == "entityForKey" {
 				same = true
 			}
 		})
@@ -456,7 +456,7 @@ func c18r4(c *core.Ctx) {
 				if core.IsInvoke(i, qStorage, "Get") {
 					reads = true
 				}
-				if g := core.Callee(i); g != nil && g.Name() == "entityForKey" {
+				if g := core.Callee(i); g != nil && cn(g) == "entityForKey" {
 					reads = true
 				}
 			})
@@ -715,7 +715,7 @@ func c19r3(c *core.Ctx) {
 		core.Instrs(g, func(i ssa.Instruction) {
 			if b, ok := i.(*ssa.BinOp); ok && b.Op == token.ADD {
 				if s, isK := core.ConstString(b.Y); isK {
-					if call, ok := b.X.(*ssa.Call); ok && core.Callee(call) != nil && core.Callee(call).Name() == "filePathToFile" {
+					if call, ok := b.X.(*ssa.Call); ok && core.Callee(call) != nil && cn(core.Callee(call)) == "filePathToFile" {
 						suffixes[s] = true
 					}
 				}
@@ -730,7 +730,7 @@ func c19r3(c *core.Ctx) {
 	var listed []string
 	for _, f := range libFuncs(p) {
 		core.Instrs(f, func(i ssa.Instruction) {
-			if core.IsInvoke(i, qStorage, "KeysWithSuffix") || (core.Callee(i) != nil && core.Callee(i).Name() == "KeysWithSuffix") {
+			if core.IsInvoke(i, qStorage, "KeysWithSuffix") || (core.Callee(i) != nil && cn(core.Callee(i)) == "KeysWithSuffix") {
 				if s, ok := core.ConstString(core.Args(i)[0]); ok {
 					listed = append(listed, s)
 				}
